@@ -166,6 +166,8 @@ def classify(mode, case, r):
                     key = "Limit fetch=None decoded as i64::MAX"
                 elif mode == "c35" and "EmptyRelation" in pt and ex.get("types") == []:
                     key = "EmptyRelation schema dropped"
+                elif mode in ("c37", "c38") and name == "optimized" and "null_aware" in pt and "err" not in ex:
+                    key = "null-aware anti join (NOT IN) loses its null awareness"
                 elif mode == "c37" and re.search(r"Schema error: (No field named|Schema contains qualified field name)", msg):
                     key = "consumed plan fails schema resolution when executed"
                 yield ("violation", key, {"variant": name, "oracle": msg, "plan": pt, "sql": v.get("sql"), "observed": {k: ex.get(k) for k in ("rows", "err")},
